@@ -342,21 +342,28 @@ func main() {
 	r.Set("transports", ts)
 	r.Set("names", len(names()))
 	r.Set("qtypes", len(qtypes))
-	r.Set("queries_in_closed_set", len(querySet()))
-	r.Set("raw_malformed_messages", len(rawMessages()))
+	r.Set("front_names", len(frontNames))
+	r.Set("front_classes", len(frontClasses(r.Thorough())))
+	r.Set("front_opcodes", len(frontOpcodes(r.Thorough())))
+	r.Set("front_more_qtypes", len(frontMoreTypes))
+	r.Set("front_header_flags", len(frontFlags))
+	r.Set("front_dimension_queries", len(frontSet(r.Thorough())))
+	r.Set("queries_in_closed_set", len(querySet(r.Thorough())))
+	r.Set("raw_malformed_messages", len(rawMessages(r.Thorough())))
 	r.Set("states", r.Int("cases"))
 	r.Set("transitions", r.Int("socket_exchanges"))
 	r.Set("traces_validated_against_impl", r.Int("responses_compared"))
 	r.Set("rule", "every configuration of {whoami unset/set} x {refuse-ANY off/on} x max answer {1,2,3} on CDB with UDP+TCP listeners on 127.0.0.1 port 0, one configuration on RocksDB v2 keys, one with three listeners (127.0.0.1, 127.0.0.2, ::1) carrying max answer 1,2,3, and the same three listeners with the response cache on and weighted answers cached (thorough: all backends, always-compress, response cache, IPv6-only listener, more buffer sizes); "+
-		"for each listener every query of the closed set (all names of the fixed data file incl. absent, out-of-zone, delegated, wildcard, >512/>1232/>4096-byte RRsets, whoami name in lower/mixed case and a name below it, x {A,AAAA,NS,SOA,MX,TXT,ANY}, plus ECS/DO variants) x {UDP without EDNS, UDP with each advertised size, TCP}, one exchange at a time over real sockets with retry on silence; "+
-		"oracle = canonical equality (dnsfix.Canon + exact question name; id ignored) with FBDNSDB.ServeDNS(WithMaxAnswer(n)) run in-process on the same wire query and a writer reporting the same transport/local/remote address (address sets with more candidates than max answer: subset of candidates and count); reply never larger than the client's buffer; TC set whenever the complete (TCP) answer cannot fit; TCP answer not truncated; ANY under refusal = exactly one HINFO at the query name; whoami name = whoami handler's TXT protocol/source/destination and no database record; "+
-		"malformed messages (no question, two questions) over UDP and TCP get a failure reply or none and the next query is answered; the listener's handler chain called in-process with a question-less message must not panic. "+
+		"for each listener every query of the closed set (all names of the fixed data file incl. absent, out-of-zone, delegated, wildcard, >512/>1232/>4096-byte RRsets, whoami name in lower/mixed case and a name below it, x {A,AAAA,NS,SOA,MX,TXT,ANY}, plus ECS/DO variants incl. ANY with DO/ECS; plus the front-handler dimensions: 10 names (apex, single and weighted address sets, >4096-byte RRset, absent, out-of-zone, whoami name in two cases and a name below it) x {A,TXT,ANY} x question class {0,CS,CH,HS,NONE,ANY} (thorough: also 5,253,256,65280,65535); opcode {IQUERY,STATUS,3,NOTIFY,UPDATE,6,15} (thorough: 1..15) x {apex, weighted set, whoami name} x {A,TXT,ANY} and NOTIFY x all 10 names; NOTIFY with class CH/ANY; question types {CNAME,PTR,HINFO,SRV,OPT,DS,DNSKEY,SVCB,HTTPS,IXFR,AXFR,MAILB,MAILA,0,256,65535} x 4 names; one of the header bits {RD,AD,CD,AA,TC,RA,Z} set x 4 queries) x {UDP without EDNS, UDP with each advertised size, TCP}, one exchange at a time over real sockets with retry on silence; "+
+		"oracle = canonical equality (dnsfix.Canon + exact question name; id ignored) with FBDNSDB.ServeDNS(WithMaxAnswer(n)) run in-process on the same wire query and a writer reporting the same transport/local/remote address (address sets with more candidates than max answer: subset of candidates and count); reply never larger than the client's buffer; TC set whenever the complete (TCP) answer cannot fit; TCP answer not truncated; ANY under refusal (whatever the class, options, name case) = exactly one HINFO at the query name, question echoed, nothing else; a message with a non-QUERY opcode may instead be rejected (failure reply without records) or ignored; the compared text includes opcode and the RD/RA/AD/CD/Z bits of the reply; whoami name = whoami handler's TXT protocol/source/destination and no database record; "+
+		"malformed messages (no question; two and three questions with ANY / the whoami name as first or later question; thorough: QR set) over UDP and TCP get a failure reply or none - or, when there is a question, exactly what the first question calls for on that listener - and the next query is answered; the listener's handler chain called in-process with question-less and with several-question messages must not panic and must write a failure or the answer to the first question. "+
 		"states = (configuration, listener, query, transport) cases; transitions = socket exchanges; non-trivial = cases whose expected reply carries at least one record in answer or authority")
 	r.Assume = []string{
 		"the kernel's loopback UDP/TCP delivery is trusted; a silent attempt is retried (deadlines 2, 4, 8 s) and only total silence is judged",
 		"the in-process bare handler is a second FBDNSDB instance opened on the same database file",
 		"weighted selections are compared as subset-and-count, not as a distribution (C11 owns that)",
 		"TLS and DNSSEC front handlers are not configured",
+		"a message whose opcode is not QUERY, or with a question count other than 1, or with QR set, is not a query in the sense of the statement: rejection or silence is accepted, database content where the chain should refuse is not",
 	}
 	clean()
 	r.Finish()
